@@ -290,7 +290,13 @@ impl<'a, S: Setup> G<'a, S> {
         }
     }
     fn mul_add(&mut self) {
-        let (a, b, c) = (self.var(), self.var(), self.var());
+        let (a, b, mut c) = (self.var(), self.var(), self.var());
+        // operands repeated inside one row (x*y + x, x*x + y, ...) are their own bus shape
+        match self.rng.random_range(0..6u32) {
+            0 => c = a,
+            1 => c = b,
+            _ => {}
+        }
         let v = self.vals[a] * self.vals[b] + self.vals[c];
         self.push(Stmt::MulAdd(a, b, c), vec![v]);
     }
@@ -569,6 +575,16 @@ pub fn gen_prog<S: Setup>(rng: &mut SmallRng, opts: &GenOpts) -> Generated<S> {
     let n_leaves = g.rng.random_range(1..5usize);
     for _ in 0..n_leaves {
         g.leaf();
+    }
+    if opts.horner && opts.clean && g.rng.random_range(0..6u32) == 0 {
+        // Horner-heavy program: several proper chains separated by at most one other op
+        let chains = g.rng.random_range(2..5usize);
+        for _ in 0..chains {
+            g.horner_chain();
+            if chance(g.rng, 2, 3) {
+                g.binop();
+            }
+        }
     }
     while g.prog.stmts.len() < opts.size {
         let r = g.rng.random_range(0..100u32);
